@@ -140,6 +140,7 @@ def SUBSTITUTE(text, old_text, new_text, instance_num=DEFAULT):
 def TEXTJOIN(delimiter, ignore_empty, *args):
     if not isinstance(delimiter, string_types):
         return error.VALUE
+    ignore_empty = utils.single(ignore_empty)
     items = []
     for item in utils.iflatten(args):
         if isinstance(item, error.XLError):
